@@ -39,6 +39,10 @@ class XonshCallMakerVisitor(PythonCallMakerVisitor):
 
     def lookahead_call_helper(self, node: Item, nested=True) -> tuple[str, str]:
         name, call = self.visit(node.node if nested else node)
+        if "self.expect_forced(" in call:
+            # the arguments of a call are evaluated before the helper takes its mark: a forced token must not be
+            # consumed (or raise) until the helper asks for it
+            return f"(lambda: {call})", ""
         head, tail = call.split("(", 1)
         assert tail[-1] == ")"
         tail = tail[:-1]
